@@ -32,6 +32,7 @@ HARNESS = {}
 PROPS = {}
 _REPLAY = []
 _XBT_HARNESS = []
+_C20 = []   # (harness name -> sanitized harness name, stream functions) per family
 _LIST_FIELDS = ("harness", "thorough_harness", "proof_modules", "assumptions", "trusted")
 
 
@@ -58,10 +59,15 @@ def _load():
         if hasattr(m, "replay_jobs"):
             _REPLAY.append(m.replay_jobs)
         _XBT.extend(getattr(m, "XBT", []))
+        if hasattr(m, "C20_STREAMS"):
+            HARNESS.update(m.C20_HARNESS)
+            _C20.append((m.C20_MAP, m.C20_STREAMS))
         for h in getattr(m, "XBT_HARNESS", []):
             _XBT_HARNESS.append(h)
     if _XBT:
         _merge("C12", dict(harness=_XBT_HARNESS, streams=xbt_streams))
+    if _C20:
+        _merge("C20", dict(harness=[v for mp, _ in _C20 for v in mp.values()], streams=c20_family_streams))
     for prop, p in PROPS.items():
         fns = p.pop("_streams")
         p["streams"] = (lambda fns: (lambda tier, seed, exes: [j for fn in fns for j in fn(tier, seed, exes)]))(fns)
@@ -93,6 +99,28 @@ def xbt_streams(tier, seed, exes):
             jobs.append(dict(xbt=[(j["exe"], j["args"]) for j in js], label=f"cross-block-type {fam} {' '.join(args)} x{len(js)}"))
     if tier == "quick":
         jobs = rotate(jobs, seed, 60)
+    return jobs
+
+
+def c20_family_streams(tier, seed, exes):
+    """C20: the families' own streams, executed by ASan+UBSan builds of their harnesses (a seed-rotated subset in the quick tier)"""
+    jobs = []
+    for mp, fns in _C20:
+        class _Exes(dict):
+            def __missing__(self, k):
+                return "/nonexistent/" + k
+        mapped = _Exes({k: exes[v] for k, v in mp.items() if v in exes})
+        fam = []
+        for fn in fns:
+            for j in fn(tier, seed, mapped):
+                if j.get("exe", "").startswith("/nonexistent/") or "exe" not in j:
+                    continue
+                j = dict(j); j["label"] = "ASan+UBSan " + j["label"]
+                fam.append(j)
+        if tier == "quick" and len(fam) > 24:
+            k = (len(fam) + 23) // 24
+            fam = fam[seed % k::k]      # evenly spread, seed-rotated subset
+        jobs += fam
     return jobs
 
 
